@@ -1,19 +1,48 @@
 #!/usr/bin/env python3
-"""setup_cmd: build the Lean library + drivers from files on disk (offline)."""
-import os, subprocess, sys
+"""setup_cmd: warm-up build of the Lean library + drivers from files on disk (offline).
+
+Every check rebuilds what it needs itself; this only has to succeed for the modules of the checks
+registered in MANIFEST.json.  Other modules under lean/ (work in progress) are built best-effort.
+"""
+import glob
+import json
+import os
+import re
+import sys
 sys.path.insert(0, os.path.dirname(os.path.abspath(__file__)))
 import common as C
-import glob
+
+claimed = [c['property_id'] for c in json.load(open(os.path.join(C.VERIF, 'MANIFEST.json')))['checks']]
 # regenerate every Gen file first so that the library builds against the current tree
 for g in sorted(glob.glob(os.path.join(C.VERIF, 'gen', 'gen_c*.py'))):
     r = C.run_gen(os.path.basename(g))
     print(os.path.basename(g), 'ok' if r.get('ok') else r.get('error'))
-mods = ['Alpaqa.Props.' + os.path.basename(f)[:-5] for f in sorted(glob.glob(os.path.join(C.LEAN, 'Alpaqa', 'Props', '*.lean')))]
-ok, out = C.lake_build(mods)
-print(out[-3000:])
-exes = ['drv_' + os.path.basename(f)[:-5].lower() for f in sorted(glob.glob(os.path.join(C.LEAN, 'Driver', 'C*.lean')))]
-if exes:
-    ok2, out2 = C.lake_build(exes)
-    print(out2[-2000:])
-    ok = ok and ok2
+
+def targets_of(pid):
+    mods = [m for m in ['Alpaqa.Props.' + os.path.basename(f)[:-5]
+                        for f in sorted(glob.glob(os.path.join(C.LEAN, 'Alpaqa', 'Props', pid + '*.lean')))]]
+    drv = 'drv_' + pid.lower()
+    if os.path.exists(os.path.join(C.LEAN, 'Driver', pid + '.lean')):
+        mods.append(drv)
+    return mods
+
+ok = True
+strict = []
+for pid in claimed:
+    strict += targets_of(pid)
+strict += ['drv_loop']
+good, out = C.lake_build(strict)
+print(out[-2500:])
+ok = ok and good
+# best effort for everything else
+allmods = ['Alpaqa.Props.' + os.path.basename(f)[:-5]
+           for f in sorted(glob.glob(os.path.join(C.LEAN, 'Alpaqa', 'Props', '*.lean')))]
+rest = [m for m in allmods if m not in strict]
+exes = re.findall(r'^name = "(drv_[a-z0-9_]+)"', open(os.path.join(C.LEAN, 'lakefile.toml')).read(), re.M)
+rest += [e for e in exes if e not in strict and os.path.exists(
+    os.path.join(C.LEAN, *re.search(r'name = "%s"\nroot = "([^"]+)"' % e,
+                                    open(os.path.join(C.LEAN, 'lakefile.toml')).read()).group(1).split('.')) + '.lean')]
+for t in rest:
+    g, o = C.lake_build([t])
+    print(('ok   ' if g else 'WIP  ') + t)
 sys.exit(0 if ok else 1)
